@@ -655,6 +655,58 @@ pub fn gen(rng: &mut Rng, tier: Tier, out: &mut Vec<String>) {
             out.push(format!("chain {n} {toks} {}", probes(rng, 2)));
         }
     }
+    // orient_y / orient_z under stress: axis lengths from 1e-6 to 1e3 (the functions normalise the cross product of
+    // their arguments, so the auxiliary axis may have any length) and unit axes 5, 1, 0.1 and 0.03 degrees from parallel
+    // (cross product as short as 5e-4)
+    {
+        let lens = [1.0e-6f32, 1.0e-4, 1.0e-3, 1.0e-2, 1.0, 1.0e3];
+        let angles = [5.0f64, 1.0, 0.1, 0.03];
+        let scale = |v: [f32; 3], l: f32| [v[0] * l, v[1] * l, v[2] * l];
+        for i in 0..(if q { 900 } else { 30_000 }) {
+            let name = if i % 2 == 0 { "OY" } else { "OZ" };
+            let a = unit3(rng);
+            let (la, lx, x) = match (i / 2) % 3 {
+                0 => {
+                    // every pair of lengths, directions well apart
+                    let mut x;
+                    loop {
+                        x = unit3(rng);
+                        let c = cross(a, x);
+                        if c[0] * c[0] + c[1] * c[1] + c[2] * c[2] > 0.1 {
+                            break;
+                        }
+                    }
+                    let k = (i / 6) % 36;
+                    (lens[k / 6], lens[k % 6], x)
+                }
+                m => {
+                    // x = a cos(t) + b sin(t), b a unit vector orthogonal to a (computed in f64)
+                    let t = angles[(i / 6) % 4].to_radians() * if rng.bool() { 1.0 } else { -1.0 };
+                    let a64 = [a[0] as f64, a[1] as f64, a[2] as f64];
+                    let mut b;
+                    loop {
+                        let u = unit3(rng);
+                        let u64 = [u[0] as f64, u[1] as f64, u[2] as f64];
+                        let d = u64[0] * a64[0] + u64[1] * a64[1] + u64[2] * a64[2];
+                        b = [u64[0] - d * a64[0], u64[1] - d * a64[1], u64[2] - d * a64[2]];
+                        let l = (b[0] * b[0] + b[1] * b[1] + b[2] * b[2]).sqrt();
+                        if l > 0.3 {
+                            b = [b[0] / l, b[1] / l, b[2] / l];
+                            break;
+                        }
+                    }
+                    let x: [f32; 3] = core::array::from_fn(|j| (a64[j] * t.cos() + b[j] * t.sin()) as f32);
+                    // unit primary axis; the auxiliary one either unit as well or of any length
+                    (1.0, if m == 1 { 1.0 } else { lens[(i / 24) % 6] }, x)
+                }
+            };
+            let toks = format!("{name} {} {}", h3(scale(a, la)), h3(scale(x, lx)));
+            out.push(format!("chain 1 {toks} {}", probes(rng, 2)));
+            if la == 1.0 {
+                out.push(format!("inv 1 {toks}"));
+            }
+        }
+    }
     // small but perfectly conditioned linear parts (D18: the determinant guard of inverse() used to be absolute;
     // uniform scale s times rotations: 4x4 condition number about 1/s <= 1e3, det = s^3)
     for _ in 0..(if q { 80 } else { 3000 }) {
